@@ -43,4 +43,42 @@ def extractOut (o : OutPkt) : PktSig :=
     synMss := 0 }
 
 
+/-! ### decidable forms of the hypotheses of the C05 theorem (evaluated by the driver on every run) -/
+
+def layoutLenB (l : List Nat) : Nat :=
+  (l.map fun k => if k = 1 then 1 else if k = 2 then 4 else if k = 3 then 3 else if k = 4 then 2 else 10).sum
+
+/-- the class of signatures `imp_exact_partial` covers, as a Boolean (see `Supported` in P0f/Props/C05.lean) -/
+def supportedB (s : Sig) (b : Base) : Bool :=
+  (s.ipVer.isNone || s.ipVer == some b.ipVer)
+  && s.layout.all (fun k => k == 1 || k == 2 || k == 3 || k == 4 || k == 8)
+  && layoutLenB s.layout % 4 == 0
+  && s.eolPad == 0
+  && (b.ipVer != 6 || s.olen == 0) && s.olen % 4 == 0
+  && decide (1 ≤ s.ttl) && decide (s.ttl ≤ 255)
+  && (match s.mss with | some m => decide (m < 65536) | none => true)
+  && (match s.scale with | some w => decide (w < 256) | none => true)
+  && (s.wtype != .normal || decide (s.wsize < 65536))
+  && (s.wtype != .mod || (decide (2 ≤ s.wsize) && decide (s.wsize ≤ 65535)))
+  && (s.wtype != .mss || (decide (1 ≤ s.wsize) && decide (s.wsize ≤ 655) && s.layout.contains 2
+        && (match s.mss with | some m => decide (100 ≤ m) && decide (m * s.wsize ≤ 65535) | none => true)))
+  && s.wtype != .mtu
+  && !s.quirks .bad && !s.quirks .eolNz
+  && (!s.quirks .nzId || s.quirks .df) && (!s.quirks .zeroId || !s.quirks .df)
+  && !(s.quirks .nzAck && s.quirks .zeroAck) && !(s.quirks .nzUrg && s.quirks .urg)
+  && (!(b.ipVer == 4 && s.ipVer == some 4) || !s.quirks .flow)
+  && (!(b.ipVer == 6 && s.ipVer == some 6) || (!s.quirks .df && !s.quirks .nzId && !s.quirks .zeroId && !s.quirks .nzMbz))
+  && (!s.quirks .exws || (s.layout.contains 3 && (match s.scale with | some w => decide (14 < w) | none => true)))
+  && (s.quirks .exws || (match s.scale with | some w => decide (w ≤ 14) | none => true))
+  && (match s.mss with | some m => s.layout.contains 2 || m == 0 | none => true)
+  && (match s.scale with | some w => s.layout.contains 3 || w == 0 | none => true)
+  && (!s.quirks .zeroTs1 || s.layout.contains 8)
+  && (!s.quirks .nzTs2 || (s.layout.contains 8 && impTcpType s b == F_SYN))
+
+/-- admissible base packet, as a Boolean (see `Admissible`) -/
+def admissibleB (b : Base) : Bool :=
+  decide (b.flags < 512) && bit b.flags F_SYN && !bit b.flags F_FIN && !bit b.flags F_RST
+  && (bit b.flags F_ACK == (b.ack != 0)) && !bit b.flags F_URG && b.urp == 0
+  && (b.ipVer == 4 || b.ipVer == 6) && decide (b.ipFlags < 8) && !bit b.ipFlags 1 && b.ipFrag == 0
+
 end P0f
